@@ -24,7 +24,7 @@ ASSUMPTIONS = ['0.0 is the sparse format\'s "pruned" marker: a genuine logit is 
                'the end-to-end leg uses transcriptions with plain single spaces, geometry inside the page; both layouts go through the same decoder and exporter']
 N = {'quick': 500, 'thorough': 30000}
 CLASSES = ['roundtrip', 'roundtrip_bytes', 'subset', 'superset', 'legacy', 'missing_component', 'dense', 'rebuild', 'rebuild', 'empty_page']
-REQUIRED = ['legacy_windows_edited_in_place', 'saves_under_a_bare_file_name', 'rebuilds_of_an_imported_and_reordered_layout', 'missing_component_with_a_complete_twin', 'matrices_with_explicitly_stored_zeros', 'refused_saves_over_an_existing_file', 'partial_file_redecodes', 'legacy:characters_only', 'legacy:coords_only', 'roundtrip_lines', 'untouched_checked', 'missing_reported', 'dense_checked', 'rebuild_pages', 'rebuild_lines_decoded', 'rebuild_alto_compared', 'legacy_checked', 'reloads', 'parse_folder_rebuilds', 'float32_lines']
+REQUIRED = ['matrices_with_a_cell_stored_twice', 'files_addressed_by_a_path_object', 'legacy_windows_edited_in_place', 'saves_under_a_bare_file_name', 'rebuilds_of_an_imported_and_reordered_layout', 'missing_component_with_a_complete_twin', 'matrices_with_explicitly_stored_zeros', 'refused_saves_over_an_existing_file', 'partial_file_redecodes', 'legacy:characters_only', 'legacy:coords_only', 'roundtrip_lines', 'untouched_checked', 'missing_reported', 'dense_checked', 'rebuild_pages', 'rebuild_lines_decoded', 'rebuild_alto_compared', 'legacy_checked', 'reloads', 'parse_folder_rebuilds', 'float32_lines']
 CHARSETS = [list('abcdefgh '), list('abc '), ['a', 'b', 'é', 'ạ̈', 'שׁ', '\U0001F600', ' '], [chr(0x61 + k) for k in range(26)] + [' ', '.', ',']]
 
 
@@ -66,6 +66,16 @@ def random_sparse(rng, T, C):
     if rng.random() < 0.25 and m.data.size:
         # entries pruned AFTER the matrix was built (m.data[...] = 0 without eliminate_zeros): zeros that are stored explicitly are still "pruned"
         m.data[rng.random(m.data.size) < 0.3] = 0
+    elif rng.random() < 0.12 and m.data.size:
+        # (round 8) a matrix assembled from (data, indices, indptr) in which one cell is stored twice: its value is the sum of the two entries (scipy's meaning of duplicates)
+        k = int(rng.integers(0, m.data.size))
+        col = int(np.searchsorted(m.indptr, k, side='right') - 1)
+        data = np.insert(m.data, k + 1, m.data[k] * m.data.dtype.type(0.25))
+        data[k] = m.data[k] * m.data.dtype.type(0.75)
+        indices = np.insert(m.indices, k + 1, m.indices[k])
+        indptr = m.indptr.copy()
+        indptr[col + 1:] += 1
+        m = sparse.csc_matrix((data, indices, indptr), shape=m.shape)
     return m
 
 
@@ -119,6 +129,10 @@ def save_and_load(src, dst, case, ctx, **kw):
                 os.chdir(cwd)
             ctx.bare_names = getattr(ctx, 'bare_names', 0) + 1
             return
+        if case['seed'] % 3 == 1:
+            import pathlib
+            f = pathlib.Path(f)                    # the file addressed by a path object
+            ctx.path_objects = getattr(ctx, 'path_objects', 0) + 1
         src.save_logits(f, **kw)
         dst.load_logits(f)
 
@@ -250,6 +264,8 @@ def check(case, mon, ctx):
         return
     if not case['bytes'] and case['seed'] % 3 == 0:
         mon.count('saves_under_a_bare_file_name')
+    if not case['bytes'] and case['seed'] % 3 == 1:
+        mon.count('files_addressed_by_a_path_object')
     by_id = {l.id: l for l in b.lines_iterator()}
     mon.observe('loaded windows and tables', [(l.id, l.logit_coords, l.characters, None if l.logits is None or isinstance(l.logits, str) else [int(x) for x in l.logits.shape]) for l in b.lines_iterator()])
     for la in lines_a:
@@ -298,7 +314,10 @@ def check_dense(b, mon, step='after load'):
     for lb in b.lines_iterator():
         if not sparse.issparse(lb.logits):
             continue
-        src = lb.logits.tocoo()
+        src = lb.logits.tocoo(copy=True)
+        if not lb.logits.has_canonical_format:
+            mon.count('matrices_with_a_cell_stored_twice')
+        src.sum_duplicates()                       # a cell stored twice holds the sum of its entries
         for floor in (-80, -35.5):
             d = lb.get_dense_logits(floor) if floor != -80 else lb.get_dense_logits()
             mon.count('dense_checked')
